@@ -193,6 +193,7 @@ func scenarioTimers(w *world) {
 	// 0: data outstanding, 1: shutdown outstanding, 2: reconfig outstanding, 3: plain transfer
 	st := map[*xferDir]*dirState{}
 	x.onRead = func(d *xferDir, r *readRec) { checkRead(w, st, d, r) }
+	x.pokes = w.wtape.intn(2) == 0
 	x.start()
 	if mode == 3 {
 		w.run(func() bool { return x.writersDone() && x.allSettled() }, w.now()+time.Duration(5+tp.intn(30))*time.Second)
